@@ -102,6 +102,24 @@ class Monitor:
         out = self.out
         self.seen = {}
         self.install_spies(run)
+        # looking at the election does not change it: the diluted margins (every card, whether or not it lists the
+        # contest) are asked for, and every record must still list exactly the contests it listed before
+        if run.case.get("diluted_look") and not run.polling:
+            before = [(c.id, sorted(c.votes.keys())) for c in run.cvr_list]
+            for cid, con in run.contests.items():
+                for key, asn in con.assertions.items():
+                    try:
+                        with W.quiet():
+                            run.ns.Assertion.margin(asn, run.cvr_list, use_style=False)
+                    except Exception as e:
+                        out.raised("Assertion.margin(diluted)", e)
+            out.probe("diluted margins looked at before sampling")
+            after = [(c.id, sorted(c.votes.keys())) for c in run.cvr_list]
+            changed = [(a, b) for a, b in zip(before, after) if a != b]
+            if changed:
+                out.violate("C06.d", f"records-changed-by-a-look/{run.world['audit_type']}",
+                            f"after the diluted margins were computed, record {changed[0][0][0]} lists {changed[0][1][1]} "
+                            f"(before: {changed[0][0][1]}); {len(changed)} records changed")
         if not run.use_style:
             out.probe("style off")
         for cid, con in run.contests.items():
